@@ -37,6 +37,11 @@ func script(height int32, salt uint32, i byte) []byte {
 	return s
 }
 
+// oddScript is a non-OP_RETURN script that fails to parse.
+func oddScript(height int32, salt uint32) []byte {
+	return []byte{0x51, 0x4b, byte(height), byte(salt), byte(salt >> 8)}
+}
+
 // MineBlock mines a valid child of parent that carries a coinbase and one
 // ordinary transaction with two outputs, and computes its filters.
 func MineBlock(p *chaincfg.Params, parent *Node, spacing time.Duration, salt uint32, label string) (*Node, *BlockData) {
@@ -60,6 +65,9 @@ func mineBlock(p *chaincfg.Params, parent *Node, spacing time.Duration, salt uin
 	tx.AddTxIn(wire.NewTxIn(&wire.OutPoint{Hash: prev, Index: 0}, []byte{0x51}, nil))
 	tx.AddTxOut(wire.NewTxOut(1e8, script(height, salt, 2)))
 	tx.AddTxOut(wire.NewTxOut(2e8, script(height, salt, 3)))
+	// a third output whose script does not parse (a push of 75 bytes that
+	// are not there) and is no OP_RETURN: BIP158 filters contain it
+	tx.AddTxOut(wire.NewTxOut(3e8, oddScript(height, salt)))
 	var prevScripts [][]byte
 	if segwit {
 		// a witness spend (shaped like P2WPKH) and the coinbase's commitment
@@ -100,9 +108,10 @@ func mineBlock(p *chaincfg.Params, parent *Node, spacing time.Duration, salt uin
 	if err != nil {
 		panic(err)
 	}
-	// the false filter: every script but the second output of the ordinary tx
+	// the false filter: every script but the last output of the ordinary tx
+	// (the one that does not parse)
 	bf, err := builder.WithKeyHash(&node.Hash).AddEntries([][]byte{
-		script(height, salt, 1), script(height, salt, 2)}).Build()
+		script(height, salt, 1), script(height, salt, 2), script(height, salt, 3)}).Build()
 	if err != nil {
 		panic(err)
 	}
@@ -114,7 +123,7 @@ func mineBlock(p *chaincfg.Params, parent *Node, spacing time.Duration, salt uin
 		panic(fmt.Sprintf("false filter of %s equals the true one", label))
 	}
 	return node, &BlockData{Block: blk, Filter: f, FilterHash: fhash, BadFilter: bf, BadHash: bhash,
-		Scripts: [][]byte{script(height, salt, 1), script(height, salt, 2), script(height, salt, 3)}}
+		Scripts: [][]byte{script(height, salt, 1), script(height, salt, 2), script(height, salt, 3), oddScript(height, salt)}}
 }
 
 // NextFilterHeader chains a filter hash onto the previous filter header.
